@@ -549,7 +549,7 @@ class IPAddr6 (_AddrBase):
       self._value = addr._value
     elif isinstance(addr, IPAddr):
       # IPv4-mapped
-      self._value = IPAddr6("::ffff:0:0:" + str(addr))._value
+      self._value = IPAddr6("::ffff:" + str(addr))._value
     elif isinstance(addr, bytearray):
       # Raw value
       if len(addr) != 16: raise ValueError("Raw IPv6 addresses are 16 bytes")
